@@ -358,7 +358,7 @@ func runC02(ctx *core.Ctx, pool *par.Pool) {
 	ctx.SetBudget(110 * time.Second)
 	if !ctx.Quick() {
 		small, large = 3, 2
-		ctx.SetBudget(28 * time.Minute)
+		ctx.SetBudget(15 * time.Minute)
 	}
 	ps, names := isoScenarios(ctx.Quick())
 	bounds := func(i int) explore.Bounds {
